@@ -11,8 +11,9 @@
   is the inverse DFT of a sampled, truncated Gaussian and only satisfies this up to a ripple —
   that part is numeric validation); the −3 dB constant of `apply_modulation`; all the integer
   padding / slicing / length arithmetic of `Channel.modulate`, `Waveform.modulated_samples`,
-  `ChannelSamples.modulate` and `sample(modulation=True)`; success of modulated sampling, with
-  numpy's "can't extend empty axis" modelled exactly (F14).
+  `ChannelSamples.modulate` and `sample(modulation=True)`; success of modulated sampling.  The
+  repair of F14 (/repo d9bdcf58: guarded edge padding) is mirrored; `modulate_empty_old` states what
+  the unguarded code did (numpy's "can't extend empty axis" modelled exactly).
 
   NOT carried (monitor only, `uncovered_clauses`): float FFT accuracy, the ripple bounds, the
   "below max(0.01, 0.6 % of peak) beyond the fall time" inequality, everything involving EOM blocks
@@ -100,28 +101,32 @@ theorem gain_at_bandwidth (bw : ℝ) (hbw : bw ≠ 0) :
 
 /-- **One rise time at each end.**  `Channel.modulate` of `n` samples returns `n + 2·padding`
 samples (`padding` = rise time of the channel, or of the EOM when `eom=True`): always without
-`keep_ends`; with `keep_ends` provided the input is non-empty and `rise_time ≥ 1`.  A channel
-without bandwidth returns its input. -/
+`keep_ends`; with `keep_ends` provided `rise_time ≥ 1` — for every input, the empty one included
+(since /repo d9bdcf58).  A channel without bandwidth returns its input. -/
 theorem modulate_length {α : Type} [Zero α] (filt : List α → List α)
     (hf : ∀ l, (filt l).length = l.length) (c : ModCfg) (x : List α) :
-    (c.filters = false → ∀ k, channelModulate filt c x k = some x) ∧
-    (c.filters = true → ∃ y, channelModulate filt c x false = some y ∧
-        y.length = x.length + 2 * c.pad) ∧
-    (c.filters = true → 1 ≤ c.rise → x ≠ [] → ∃ y, channelModulate filt c x true = some y ∧
-        y.length = x.length + 2 * c.pad) :=
+    (c.filters = false → ∀ k, channelModulate filt c x k = x) ∧
+    (c.filters = true → (channelModulate filt c x false).length = x.length + 2 * c.pad) ∧
+    (c.filters = true → 1 ≤ c.rise → (channelModulate filt c x true).length = x.length + 2 * c.pad) :=
   ⟨fun hc k => channelModulate_nofilter filt c hc x k,
    fun hc => channelModulate_plain filt hf c hc x,
-   fun hc hr hx => channelModulate_keep filt hf c hc hr x hx⟩
+   fun hc hr => channelModulate_keep filt hf c hc hr x⟩
 
-/-- The two hypotheses of the `keep_ends` case are forced: an empty input is an error (numpy's
-edge padding, F14), and `rise_time = 0` would return *no* sample (`[0:-0]`; excluded on real
-channels by `mod_bandwidth ≤ 480 MHz`, which the monitor checks). -/
+/-- The hypothesis `rise_time ≥ 1` of the `keep_ends` case is forced: `rise_time = 0` would return
+*no* sample (`[0:-0]`; excluded on real channels by `mod_bandwidth ≤ 480 MHz`, which the monitor
+checks). -/
 theorem modulate_keep_ends_degenerate {α : Type} [Zero α] (filt : List α → List α) (c : ModCfg)
-    (hc : c.filters = true) :
-    (0 < c.pad + c.rise → channelModulate filt c ([] : List α) true = none) ∧
-    (c.rise = 0 → ∀ x : List α, x ≠ [] → channelModulate filt c x true = some []) :=
-  ⟨fun hk => channelModulate_keep_empty filt c hc hk,
-   fun hr x hx => channelModulate_keep_zero_rise filt c hc hr x hx⟩
+    (hc : c.filters = true) (hr : c.rise = 0) (x : List α) : channelModulate filt c x true = [] :=
+  channelModulate_keep_zero_rise filt c hc hr x
+
+/-- **F14, about the old code** (before /repo d9bdcf58): `Channel.modulate([], keep_ends=True)` was
+numpy's empty edge-pad error, and on every other input the old and the repaired function agree. -/
+theorem modulate_empty_old {α : Type} [Zero α] (filt : List α → List α) (c : ModCfg)
+    (hc : c.filters = true) (hk : 0 < c.pad + c.rise) :
+    channelModulateOld filt c ([] : List α) true = none ∧
+    ∀ (x : List α) (k : Bool), (x ≠ [] ∨ k = false) →
+      channelModulateOld filt c x k = some (channelModulate filt c x k) :=
+  ⟨channelModulateOld_keep_empty filt c hc hk, fun x k h => channelModulateOld_eq filt c x k h⟩
 
 /-- `Waveform.modulated_samples`: trimming the `n + 2·tr` modulated samples with buffers
 `start, end ≤ tr` leaves `n + start + end` samples. -/
@@ -130,89 +135,84 @@ theorem modulated_samples_length {α : Type} (mod : List α) (n tr start stop : 
     (trimModulated mod tr start stop).length = n + start + stop :=
   trimModulated_length mod n tr start stop hm hs he
 
-/-- **Modulated sampling ends at the channel duration including fall time.**  For a non-empty
-channel (`n > 0` plain samples in each array) with a bandwidth (`rise ≥ 1`, standard padding),
-without `extended_duration`, and with `get_duration(include_fall_time=True) ≤ n + 2·rise`
-(hypothesis A1 of DESIGN §4: fall time ≤ 2·rise time, monitored), the three arrays returned by
-`sample(seq, modulation=True)` have exactly that length. -/
+/-- **Modulated sampling ends at the channel duration including fall time.**  For a channel with
+`n ≥ 0` plain samples in each array and a bandwidth (`rise ≥ 1`, standard padding), without
+`extended_duration`, and with `get_duration(include_fall_time=True) ≤ n + 2·rise` (hypothesis A1
+of DESIGN §4: fall time ≤ 2·rise time, monitored), the three arrays returned by
+`sample(seq, modulation=True)` have exactly that length.  Empty channels included. -/
 theorem modulated_sampling_length {α : Type} [Zero α] (filt : List α → List α)
     (hf : ∀ l, (filt l).length = l.length) (c : ModCfg) (hc : c.filters = true) (hr : 1 ≤ c.rise)
-    (hp : c.pad = c.rise) (s : CS α) (n durWithFall : Nat) (hn : 0 < n)
+    (hp : c.pad = c.rise) (s : CS α) (n durWithFall : Nat)
     (ha : s.amp.length = n) (hd : s.det.length = n) (hph : s.phase.length = n)
     (hfall : durWithFall ≤ n + 2 * c.rise) :
     ∃ r, sampleChannel filt c s true 0 durWithFall = some r ∧
-      r.amp.length = durWithFall ∧ r.det.length = durWithFall ∧ r.phase.length = durWithFall := by
-  obtain ⟨r, h1, h2⟩ := csModulate_lengths filt hf c hc hr s n durWithFall hn ha hd hph
-    (by rw [hp]; exact hfall)
-  exact ⟨r, by simp [sampleChannel, h1], h2⟩
+      r.amp.length = durWithFall ∧ r.det.length = durWithFall ∧ r.phase.length = durWithFall :=
+  ⟨_, by simp [sampleChannel],
+    csModulate_lengths filt hf c hc hr s n durWithFall ha hd hph (by rw [hp]; exact hfall)⟩
 
-/-- With `extended_duration = E ≥ n > 0` the arrays have length `E`. -/
+/-- A channel without bandwidth: the arrays keep their `n` samples (fall time 0: A3). -/
+theorem modulated_sampling_length_nobw {α : Type} [Zero α] (filt : List α → List α) (c : ModCfg)
+    (hc : c.filters = false) (s : CS α) (n : Nat)
+    (ha : s.amp.length = n) (hd : s.det.length = n) (hph : s.phase.length = n) :
+    ∃ r, sampleChannel filt c s true 0 n = some r ∧
+      r.amp.length = n ∧ r.det.length = n ∧ r.phase.length = n :=
+  ⟨_, by simp [sampleChannel],
+    csModulate_nofilter_lengths filt c hc s n n ha hd hph (Nat.le_refl _)⟩
+
+/-- With `extended_duration = E ≥ n`, `E > 0`, the arrays have length `E`. -/
 theorem modulated_sampling_length_extended {α : Type} [Zero α] (filt : List α → List α)
     (hf : ∀ l, (filt l).length = l.length) (c : ModCfg) (hc : c.filters = true) (hr : 1 ≤ c.rise)
-    (s : CS α) (n E d : Nat) (hn : 0 < n) (hE : n ≤ E)
+    (s : CS α) (n E d : Nat) (hE0 : E ≠ 0) (hE : n ≤ E)
     (ha : s.amp.length = n) (hd : s.det.length = n) (hph : s.phase.length = n) :
     ∃ r, sampleChannel filt c s true E d = some r ∧
       r.amp.length = E ∧ r.det.length = E ∧ r.phase.length = E := by
-  have hE0 : E ≠ 0 := by omega
-  have hph' : s.phase ≠ [] := by intro h; rw [h] at hph; simp at hph; omega
-  obtain ⟨b, hb⟩ : ∃ b, s.phase.getLast? = some b := ⟨_, List.getLast?_eq_some_getLast hph'⟩
-  have hext : extendDuration s E = some
-      { amp := s.amp ++ List.replicate (E - n) 0, det := s.det ++ List.replicate (E - n) 0,
-        phase := s.phase ++ List.replicate (E - n) b } := by
-    simp [extendDuration, ha, hb, Nat.not_lt.mpr hE]
-  obtain ⟨r, h1, h2⟩ := csModulate_lengths filt hf c hc hr
-    { amp := s.amp ++ List.replicate (E - n) 0, det := s.det ++ List.replicate (E - n) 0,
-      phase := s.phase ++ List.replicate (E - n) b } E E (by omega)
-    (by simp [ha]; omega) (by simp [hd]; omega) (by simp [hph]; omega) (by omega)
-  exact ⟨r, by simp [sampleChannel, hE0, hext, h1], h2⟩
+  have hlt : ¬ E < s.amp.length := by omega
+  cases hb : s.phase.getLast? with
+  | some b =>
+    refine ⟨csModulate filt c
+      { amp := s.amp ++ List.replicate (E - s.amp.length) 0,
+        det := s.det ++ List.replicate (E - s.amp.length) 0,
+        phase := s.phase ++ List.replicate (E - s.amp.length) b } (some E),
+      by simp [sampleChannel, hE0, extendDuration, hlt, hb], ?_⟩
+    exact csModulate_lengths filt hf c hc hr _ E E (by simp [ha]; omega) (by simp [ha, hd]; omega)
+      (by simp [ha, hph]; omega) (by omega)
+  | none =>
+    have hnil : s.phase = [] := List.getLast?_eq_none_iff.mp hb
+    have hn0 : n = 0 := by rw [← hph, hnil]; rfl
+    refine ⟨csModulate filt c
+      { amp := s.amp ++ List.replicate (E - s.amp.length) 0,
+        det := s.det ++ List.replicate (E - s.amp.length) 0,
+        phase := List.replicate (E - s.amp.length) 0 } (some E),
+      by simp [sampleChannel, hE0, extendDuration, hlt, hb], ?_⟩
+    exact csModulate_lengths filt hf c hc hr _ E E (by simp [ha]; omega) (by simp [ha, hd]; omega)
+      (by simp [ha, hn0]) (by omega)
 
 /-! ### Success -/
 
-/-- **Modulated sampling succeeds whenever plain sampling does** — for every channel that is
-non-empty or has no modulation bandwidth.  The excluded point is genuine: see
-`modulated_sampling_fails_on_empty`. -/
-theorem modulated_sampling_succeeds {α : Type} [Zero α] (filt : List α → List α)
-    (hf : ∀ l, (filt l).length = l.length) (c : ModCfg) (hr : c.filters = true → 1 ≤ c.rise)
-    (s : CS α) (n d : Nat) (ha : s.amp.length = n) (hd : s.det.length = n) (hph : s.phase.length = n)
-    (hdom : 0 < n ∨ c.filters = false)
-    (_hplain : (sampleChannel filt c s false 0 d).isSome = true) :
-    (sampleChannel filt c s true 0 d).isSome = true := by
-  cases hc : c.filters with
-  | false =>
-    have := csModulate_nofilter filt c hc s (by rw [ha, hph]) (some d)
-    simpa [sampleChannel] using this
-  | true =>
-    rcases hdom with hn | hcf
-    · obtain ⟨r, h1, _⟩ := csModulate_lengths filt hf c hc (hr hc) s n (min d (n + 2 * c.pad)) hn ha hd hph
-        (Nat.min_le_right _ _)
-      -- cutting at `d` or at `min d (n + 2 pad)` is the same list operation on success/failure
-      obtain ⟨amp, e1, _⟩ := channelModulate_plain filt hf c hc s.amp
-      obtain ⟨det, e2, _⟩ := channelModulate_keep filt hf c hc (hr hc) s.det
-        (by intro h; rw [h] at hd; simp at hd; omega)
-      cases hp : padEdgeRight s.phase (amp.length - s.phase.length) with
-      | none =>
-        have := ((padEdgeRight_none_iff _ _).mp hp).1
-        rw [this] at hph; simp at hph; omega
-      | some ph => simp [sampleChannel, csModulate, e1, e2, hp]
-    · rw [hc] at hcf; cases hcf
+/-- **Modulated sampling succeeds whenever plain sampling does** — for every channel, empty ones
+included (the domain restriction that F14 forced is gone since /repo d9bdcf58): both differ only
+by the total step `csModulate`. -/
+theorem modulated_sampling_succeeds {α : Type} [Zero α] (filt : List α → List α) (c : ModCfg)
+    (s : CS α) (E d : Nat) (hplain : (sampleChannel filt c s false E d).isSome = true) :
+    (sampleChannel filt c s true E d).isSome = true := by
+  unfold sampleChannel at hplain ⊢
+  cases h : (if E ≠ 0 then extendDuration s E else some s) with
+  | none => simp [h] at hplain
+  | some s1 => simp
 
-/-- **F14.**  On a channel with a modulation bandwidth that holds no sample (declared and never
-used, or an empty sequence) plain sampling succeeds and modulated sampling fails: the
-`keep_ends=True` modulation of the detuning edge-pads an empty array. -/
-theorem modulated_sampling_fails_on_empty {α : Type} [Zero α] (filt : List α → List α) (c : ModCfg)
-    (hc : c.filters = true) (hk : 0 < c.pad + c.rise) (d : Nat) :
-    (sampleChannel filt c ({ amp := [], det := [], phase := [] } : CS α) false 0 d).isSome = true ∧
-    sampleChannel filt c ({ amp := [], det := [], phase := [] } : CS α) true 0 d = none := by
-  refine ⟨by simp [sampleChannel], ?_⟩
-  simp [sampleChannel, csModulate_empty_fails filt c hc hk]
+/-- An empty channel with a bandwidth is sampled to empty arrays, modulated or not. -/
+theorem modulated_sampling_empty {α : Type} [Zero α] (filt : List α → List α) (c : ModCfg) :
+    (sampleChannel filt c ({ amp := [], det := [], phase := [] } : CS α) true 0 0).map
+      (fun r => (r.amp, r.det, r.phase)) = some ([], [], []) := by
+  simp [sampleChannel, csModulate]
 
 /-- Non-vacuity: identity filter, rise time 2: 3 samples become 7, cut at 5; lengths as stated. -/
 example : (sampleChannel (α := Int) id ⟨true, 2, 2⟩ ⟨[1, 2, 3], [4, 5, 6], [7, 7, 7]⟩ true 0 5).map
     (fun r => (r.amp, r.det, r.phase)) =
     some ([0, 0, 1, 2, 3], [4, 4, 4, 5, 6], [7, 7, 7, 7, 7]) := by decide
 
-example : sampleChannel (α := Int) id ⟨true, 2, 2⟩ ⟨[], [], []⟩ true 0 0 = none := by
-  simp [sampleChannel, csModulate, channelModulate, padEdge, padZero]
+example : (channelModulate (α := Int) id ⟨true, 2, 2⟩ [] true, channelModulateOld (α := Int) id ⟨true, 2, 2⟩ [] true)
+    = ([0, 0, 0, 0], none) := by decide
 
 end C14
 end Pulser
